@@ -1,5 +1,5 @@
 (* Records and boolean checkers used by the generated cases.v of the for-loop driver (vh-forloop). *)
-From Coq Require Import List String Bool Arith.
+From Coq Require Import List String Ascii Bool Arith.
 Import ListNotations.
 From TV Require Import Exec.ForLoop.
 Local Open Scope string_scope.
@@ -19,19 +19,52 @@ Definition for_agree (c : fcase) : bool :=
 Definition for_mon (c : fcase) : bool :=
   mon_for (fc_cmds c) (fc_obs_cmds c) && mon_for (fc_deps c) (fc_obs_deps c).
 
-(* end to end: the task was RUN by the real Executor; every shell command is  echo "<text>"  and
-   every callee T prints  T:<value of its first call var> ; fr_lines = the lines on stdout in order *)
-Record frun := { fr_cmds : list entry; fr_lines : list string }.
+(* the attribute clause on its own (narrower signature than for_mon): every observed command carries
+   the attributes of the entry whose segment it lies in *)
+Definition for_attrs (c : fcase) : bool :=
+  mon_attrs (fc_cmds c) (fc_obs_cmds c) && mon_attrs (fc_deps c) (fc_obs_deps c).
+
+(* end to end: the task was RUN by the real Executor.  Every shell command is
+     echo "<line>"            or     echo "<line>"; (exit <d>)
+   (it fails iff d <> 0; <line> holds no double quote) and every callee T prints  T:<value of its
+   first call var> .  fr_lines = the lines on stdout in order, fr_ok = Run returned nil. *)
+Record frun := { fr_cmds : list entry; fr_lines : list string; fr_ok : bool }.
+
+Fixpoint until_quote (s : string) : string * string :=
+  match s with
+  | "" => ("", "")
+  | String a s' => if Ascii.eqb a """"%char then ("", s')
+                   else let (l, t) := until_quote s' in (String a l, t)
+  end.
+Definition shell_parts (s : string) : string * string :=
+  until_quote (substring 6 (String.length s - 6) s).
 
 Definition line_of (x : xcmd) : string :=
   match x with
-  | XShell s => substring 6 (String.length s - 7) s
-  | XCall t ((_, v) :: _) => t ++ ":" ++ v
-  | XCall t [] => t ++ ":"
+  | XShell _ s => fst (shell_parts s)
+  | XCall _ t ((_, v) :: _) => t ++ ":" ++ v
+  | XCall _ t [] => t ++ ":"
+  end.
+
+Definition fails (x : xcmd) : bool :=
+  match x with
+  | XShell _ s => let tl := snd (shell_parts s) in negb (String.eqb tl "") && negb (String.eqb tl "; (exit 0)")
+  | XCall _ _ _ => false
+  end.
+
+(* the commands run one after the other; a failing command stops the task (Run returns an error)
+   unless that command has ignore_error, in which case the failure is suppressed for exactly it *)
+Fixpoint run_spec (xs : list xcmd) : list string * bool :=
+  match xs with
+  | [] => ([], true)
+  | x :: r =>
+      if fails x && negb (a_ignore_error (attrs_of x)) then ([line_of x], false)
+      else let (ls, ok) := run_spec r in (line_of x :: ls, ok)
   end.
 
 Definition for_run_mon (r : frun) : bool :=
-  list_eqb String.eqb (map line_of (spec_expand (fr_cmds r))) (fr_lines r).
+  let (ls, ok) := run_spec (spec_expand (fr_cmds r)) in
+  list_eqb String.eqb ls (fr_lines r) && Bool.eqb ok (fr_ok r).
 
 Fixpoint number {A} (i : nat) (l : list A) : list (nat * A) :=
   match l with [] => [] | x :: r => (i, x) :: number (S i) r end.
